@@ -114,6 +114,16 @@ M = [
  ("NEUTRAL-lair-local-weight-reordered", "C08", L+"whale_lair/src/state.rs",
   '    bond.timestamp = timestamp;\n\n    let denom: &String = match &bond.asset.info {\n        AssetInfo::Token { .. } => return Err(ContractError::AssetMismatch {}),\n        AssetInfo::NativeToken { denom } => denom,\n    };\n',
   '    let denom: String = match &bond.asset.info {\n        AssetInfo::Token { .. } => return Err(ContractError::AssetMismatch {}),\n        AssetInfo::NativeToken { denom } => denom.clone(),\n    };\n    let denom = &denom;\n    bond.timestamp = timestamp;\n', False),
+
+ ("NEUTRAL-router-complete-loan-early-ok-after-guard", "C16", VN+"vault_router/src/execute/complete_loan.rs", '        return Err(VaultRouterError::Unauthorized {});\n    }\n', '        return Err(VaultRouterError::Unauthorized {});\n    }\n    if assets.is_empty() {\n        return Ok(Response::new());\n    }\n', False),
+ ("NEUTRAL-trio-hook-belief-binding", "C15", PN+"stableswap_3pool/src/commands.rs", '                ask_asset,\n                belief_price,\n                max_spread,\n                to_addr,\n            )', '                ask_asset,\n                { let believed = belief_price; believed },\n                max_spread,\n                to_addr,\n            )', False),
+ ("NEUTRAL-collector-config-blocks-reordered", "C10", L+"fee_collector/src/commands.rs",
+  '    if let Some(take_rate_dao_address) = take_rate_dao_address {\n        config.take_rate_dao_address = deps.api.addr_validate(&take_rate_dao_address)?;\n    }\n\n    if let Some(is_take_rate_active) = is_take_rate_active {\n        config.is_take_rate_active = is_take_rate_active;\n    }',
+  '    if let Some(is_take_rate_active) = is_take_rate_active {\n        config.is_take_rate_active = is_take_rate_active;\n    }\n\n    if let Some(take_rate_dao_address) = take_rate_dao_address {\n        config.take_rate_dao_address = deps.api.addr_validate(&take_rate_dao_address)?;\n    }', False),
+ ("NEUTRAL-collector-pairs-limit-binding", "C10", L+"fee_collector/src/commands.rs", 'msg: to_json_binary(&QueryMsg::Pairs { start_after, limit })?,\n                }))?;\n\n            for pair in response.pairs {\n                result.push(collect_fees_for_contract(', 'msg: to_json_binary(&QueryMsg::Pairs { start_after, limit: { let page = limit; page } })?,\n                }))?;\n\n            for pair in response.pairs {\n                result.push(collect_fees_for_contract(', False),
+ ("NEUTRAL-lair-bond-validations-reordered", "C09", L+"whale_lair/src/commands.rs", '    helpers::validate_funds(&deps, &info, &asset, denom.clone())?;\n    helpers::validate_claimed(&deps, &info)?;\n    helpers::validate_bonding_for_current_epoch(&deps, &env)?;', '    helpers::validate_bonding_for_current_epoch(&deps, &env)?;\n    helpers::validate_claimed(&deps, &info)?;\n    helpers::validate_funds(&deps, &info, &asset, denom.clone())?;', False),
+ ("NEUTRAL-lair-bond-validations-reordered-C08", "C08", L+"whale_lair/src/commands.rs", '    helpers::validate_funds(&deps, &info, &asset, denom.clone())?;\n    helpers::validate_claimed(&deps, &info)?;\n    helpers::validate_bonding_for_current_epoch(&deps, &env)?;', '    helpers::validate_bonding_for_current_epoch(&deps, &env)?;\n    helpers::validate_claimed(&deps, &info)?;\n    helpers::validate_funds(&deps, &info, &asset, denom.clone())?;', False),
+ ("NEUTRAL-incentive-migration-no-clone", "C12", PN+"incentive/src/migrations.rs", 'claimed_amount: f.clone().claimed_amount,', 'claimed_amount: f.claimed_amount,', False),
  # neutral edits: must stay silent
  ("NEUTRAL-trio-owner-check-extracted", "C16", PN+"stableswap_3pool/src/commands.rs",
   '    let mut config: Config = CONFIG.load(deps.storage)?;\n    if deps.api.addr_validate(info.sender.as_str())? != config.owner {\n        return Err(ContractError::Std(StdError::generic_err("unauthorized")));\n    }\n\n    if let Some(owner) = owner {\n        // validate address format',
